@@ -162,7 +162,15 @@ harness(void)
                 /* i >= k > j so i^j != 0; v is THE inverse iff v*(i^j)==1 */
                 VASSERT(spec_gf_mul(v, (uint8_t) (I.i ^ I.j)) == 1, "cauchy[i][j] == inv(i^j)");
 #else
+#ifdef DOC_FORMULA
+                /* NOT in the plan: the formula as printed in include/erasure_code.h ("2^{i*(j-k+1)} i:{0,k-1}
+                 * j:{k,m-1}", i = column, j = row).  Violated on the unchanged tree: the code generates
+                 * 2^{i*(j-k)} (first parity row all ones), which is also what gen_rs_matrix_limits.c -- the
+                 * source of the documented-safe table -- analyses.  Reported as a documentation finding. */
+                VASSERT(v == spec_pow(2, (unsigned) I.j * (I.i - K + 1)), "DOC rs[row][col] == 2^(col*(row-k+1))");
+#else
                 VASSERT(v == spec_pow(spec_pow(2, I.i - K), I.j), "rs[i][j] == (2^(i-k))^j");
+#endif
 #endif
         }
 #elif defined(H_RECOVER)
